@@ -153,11 +153,13 @@ def handler : Handler := fun op args =>
   | "waiter" => Wire.run (do
       -- a lookup (T2) that has to wait for `_cell_size_lock` held by another lookup (T1 at window A): the
       -- size is read only after the lock was obtained, so T2 is a plain lookup at the window current then (C);
-      -- window B, current only while T2 waited, is never read.  Values: T1, T2, then lookups back at B, at C, at A.
-      let T ← pTerm; let A ← pWin; let B ← pWin; let C ← pWin
-      let r := TIV.C15.run T (St.init A)
+      -- window B, current only while T2 waited, is never read.  Values: the first lookup, T1, T2, then lookups back at B, at C, at A.
+      let T ← pTerm; let P ← pWin; let A ← pWin; let B ← pWin; let C ← pWin
+      -- an earlier successful lookup at window P, then the terminal becomes A
+      let r := TIV.C15.run T (St.init P)
         -- T1 itself is overtaken by the resize to C right after its ioctl (`getCellSizeR 2 C`)
-        [.getCellSizeR 2 C, .getCellSize, .resize B, .getCellSize, .resize C, .getCellSize, .resize A, .getCellSize]
+        [.getCellSize, .resize A, .getCellSizeR 2 C, .getCellSize, .resize B, .getCellSize, .resize C, .getCellSize, .resize A,
+         .getCellSize]
       let vals := r.2.filterMap (fun o => match o.1 with | .cell c => some (fmtVal (.cell c)) | _ => none)
       pure ("ok " ++ String.intercalate "|" vals)) args
   | "handover" => Wire.run (do
